@@ -5,7 +5,7 @@
 From Coq Require Import ZArith List String Bool.
 From Model Require Import PyBase Graph PeriodicTable Standardize StandardizeMatch StandardizeHyd StandardizeNeutral.
 From Gen Require Import Elements StdRules C14Consts.
-From Proofs Require Import StandardizeProofs StandardizeExt StandardizeTables StandardizeHydProofs StandardizeHydGen StandardizeNeutralProofs StandardizeMatchProofs C14ConstsProofs.
+From Proofs Require Import StandardizeProofs StandardizeExt StandardizeTables StandardizeHydProofs StandardizeHydGen StandardizeNeutralProofs StandardizeMatchProofs C14ConstsProofs StandardizeImplicify StandardizeImplicifyEx StandardizeInverse.
 Import ListNotations.
 Open Scope Z_scope.
 
@@ -155,12 +155,11 @@ Proof. exact explicify_conserves. Qed.
 Print Assumptions C14_explicify_conserves.
 
 (* implicify_hydrogens, for ANY valence lookup: no non-hydrogen atom is removed or changed in number, element, isotope,
-   charge or radical state.  (_partial: conservation of the total hydrogen count and implicify (explicify g) = g are tied by
-   correspondence and searched, not proved.) *)
-Theorem C14_implicify_heavy_partial : forall vlookup g g', NoDup (ids g) -> implicify vlookup g = Ok g' ->
+   charge or radical state *)
+Theorem C14_implicify_heavy : forall vlookup g g', NoDup (ids g) -> implicify vlookup g = Ok g' ->
   heavy_view (m_atoms g') = heavy_view (m_atoms g).
 Proof. exact implicify_heavy. Qed.
-Print Assumptions C14_implicify_heavy_partial.
+Print Assumptions C14_implicify_heavy.
 
 (* ---- idempotence of the pass sequence ---- *)
 (* for ANY rule tables, matcher and hydrogen calculator: the four-pass sequence over a molecule that no left-hand side
@@ -213,19 +212,18 @@ Theorem C14_table_exceptions_exact :
 Proof. exact table_exact. Qed.
 Print Assumptions C14_table_exceptions_exact.
 
-(* explicify_implicify_inverse, _partial: FINITE instance of the inverse law, with the real valence tables as the lookup: on
+(* the hypotheses of the general inverse law (C14_explicify_implicify_inverse below) hold widely: FINITE instance, with the real valence tables as the lookup: on
    every valence-valid, hydrogen-atom-free instantiation of a rule of the regenerated tables (three variants) and on what the
    pass sequence makes of it, implicify (explicify g) = g (dictionaries in the same order) and explicify of that gives the
-   explicit form back; at least 40 of the instantiations have hydrogens to move.  Missing: the law for ALL molecules whose
-   hydrogen counts are first-rule counts (tied by correspondence on 400 molecules and searched on every valid input). *)
-Theorem C14_explicify_implicify_inverse_partial :
+   explicit form back; at least 40 of the instantiations have hydrogens to move. *)
+Theorem C14_inverse_on_rule_instantiations :
   (forall v r, In v [0; 1; 2]%nat -> In r (double_rules ++ single_rules ++ metal_rules) ->
      let g := vinstantiate v r in all_valid g = true -> no_h_atoms g = true -> inverse_b g = true) /\
   forallb (fun v => forallb (fun r => let x := inverse_report v r in snd (fst x) && snd x) table_rules) [0; 1; 2]%nat = true /\
   (40 <=? List.length (filter (fun vr => fst (fst (inverse_report (fst vr) (snd vr))))
                               (flat_map (fun v => map (fun r => (v, r)) table_rules) [0; 1; 2]%nat)))%nat = true.
 Proof. exact (conj inverse_on_instantiations inverse_sweep_b). Qed.
-Print Assumptions C14_explicify_implicify_inverse_partial.
+Print Assumptions C14_inverse_on_rule_instantiations.
 
 (* explicify_hydrogens is idempotent (for ALL molecules with known, non-negative hydrogen counts): a second application adds
    nothing and returns the same molecule *)
@@ -335,3 +333,47 @@ Theorem C14_src_query_shapes :
   src_eq_QueryElement = ["atomic_number"; "charge"; "is_radical"; "isotope"; "neighbors"; "hybridization"; "ring_sizes"; "implicit_hydrogens"; "heteroatoms"]%string.
 Proof. exact src_query_shapes. Qed.
 Print Assumptions C14_src_query_shapes.
+
+(* ================= round 3: hydrogen balance of implicify_hydrogens ================= *)
+(* implicify_hydrogens conserves the total hydrogen count (implicit + hydrogen atoms), for ALL molecules with distinct atom
+   numbers whose hydrogen atoms carry no implicit hydrogens, under the hypothesis the proof forces on the valence lookup
+   (balanced_lookup): for the hydrogens hs the scan recorded for an atom, the rule accepted after taking j of them away gives
+   exactly `hydrogens the atom had + j` (true for the common valences: count = valence - explicit bonds; replayed on the real
+   code by the search: hydrogen count of implicify on every valence-valid input).  The proof shows on the way that every
+   hydrogen is recorded for at most one atom, that only hydrogen atoms are deleted and only non-hydrogen atoms get a new count. *)
+Theorem C14_implicify_total_h : forall vlookup g g',
+  NoDup (ids g) -> (forall n a, atom_of g n = Some a -> a_num a = 1 -> hval a = 0) ->
+  (forall ex, scan_explicit g (m_atoms g) [] = Ok ex -> balanced_lookup vlookup g ex) ->
+  implicify vlookup g = Ok g' -> total_h g' = total_h g.
+Proof. exact implicify_total_h. Qed.
+Print Assumptions C14_implicify_total_h.
+
+(* non-vacuity: the hypothesis holds for the REAL valence tables on explicit methane; implicify gives methane back *)
+Theorem C14_implicify_total_h_example :
+  (forall ex, scan_explicit methane_explicit (m_atoms methane_explicit) [] = Ok ex -> balanced_lookup real_vlookup methane_explicit ex) /\
+  List.length (m_atoms methane_explicit) = 5%nat /\ total_h methane_explicit = 4 /\
+  exists g', implicify real_vlookup methane_explicit = Ok g' /\ List.length (m_atoms g') = 1%nat /\ total_h g' = 4 /\ mol_eqb g' methane = true.
+Proof. exact implicify_total_h_example. Qed.
+Print Assumptions C14_implicify_total_h_example.
+
+(* ================= round 3: explicify_implicify_inverse, general ================= *)
+(* for EVERY molecule without hydrogen atoms, with distinct atom numbers, whose adjacency lists exactly its atoms and their
+   neighbours, whose hydrogen counts are known, not negative and first-rule counts (the hypothesis the proof forces: for an atom
+   with h > 0 hydrogens the first rule of the valence lookup that matches its heavy environment with at least h hydrogens has
+   exactly h; replayed on the real code by the search oracle `explicify / implicify are mutually inverse`):
+   implicify_hydrogens (explicify_hydrogens g) = g EXACTLY -- atoms, hydrogen counts, both dictionaries in their order *)
+Theorem C14_explicify_implicify_inverse : forall vlookup g g',
+  NoDup (ids g) -> keys (m_adj g) = ids g ->
+  (forall k l x, In (k, l) (m_adj g) -> In x (keys l) -> In x (ids g)) ->
+  (forall k a, In (k, a) (m_atoms g) -> a_num a <> 1) ->
+  (forall na, In na (m_atoms g) -> exists h, a_h (snd na) = Some h /\ 0 <= h) ->
+  (forall n a h, In (n, a) (m_atoms g) -> a_h a = Some h -> 0 < h -> vlookup (set_h (Some 0) a) (env_without g n []) h = VSome h) ->
+  explicify g = Ok g' -> implicify vlookup g' = Ok g.
+Proof. exact explicify_implicify_inverse. Qed.
+Print Assumptions C14_explicify_implicify_inverse.
+
+(* non-vacuity: all hypotheses hold for ethanol with the REAL valence tables; six hydrogens are added and removed again *)
+Theorem C14_inverse_example :
+  exists g', explicify ethanol = Ok g' /\ List.length (m_atoms g') = 9%nat /\ implicify real_vlookup g' = Ok ethanol.
+Proof. exact inverse_example. Qed.
+Print Assumptions C14_inverse_example.
